@@ -40,7 +40,8 @@ theorem C15_timeout_not_early :
     · cases h
   · cases h
 
-theorem closeF_id (x : Sub) : (if x.onceStarted then x else { x with onceStarted := true, doneClosed := true }).id = x.id := by
+theorem closeF_id (n : Nat) (x : Sub) :
+    (if x.onceStarted then x else { x with onceStarted := true, doneClosed := true, closedAt := some n }).id = x.id := by
   split <;> rfl
 
 theorem C10_others_unaffected' :
@@ -52,7 +53,7 @@ theorem C10_others_unaffected' :
     split at h
     · split at h
       · cases h
-        refine ⟨fun j hj => getSub_updSub_ne _ _ _ _ closeF_id hj, rfl, rfl, rfl⟩
+        refine ⟨fun j hj => getSub_updSub_ne _ _ _ _ (closeF_id _) hj, rfl, rfl, rfl⟩
       · cases h; simp
     · cases h; simp
   · simp only [step?] at h
